@@ -41,6 +41,11 @@ UNSURE / deliberately abstracted (nothing below is guessed silently):
   returns `Err.diverges` there so that every function is total without fuel.
 * U9. IPFS reads that time out, cache I/O errors, an already-open store for the same address
   (`setStore` overwrites the map entry, no check), and store-constructor errors are not modelled.
+* U10. Spellings. `haveLocalData` looks into the cache found by `datastoreKey` (a cleaned path), so
+  two spellings of one address (`/orbitdb/<r>/x`, `/orbitdb/<r>/./x`) share their local data, while
+  the model's `local` is a list of parsed addresses compared field by field. The two agree on the
+  addresses `DetermineAddress` answers and on their printed forms (what `Create` and every honest
+  caller use); for other spellings only the non-local-only `Open` is compared with the code.
 -/
 namespace Orbit.OC
 open Orbit.Path
